@@ -13,8 +13,28 @@ From Ont Require Export Corr.SigTab.
 Local Open Scope N_scope.
 Open Scope bool_scope.
 
+Definition bres_eqb (a b : bres) : bool :=
+  match a, b with
+  | BOk x, BOk y => bytes_eqb x y
+  | BErrParam, BErrParam | BPanic, BPanic => true
+  | _, _ => false
+  end.
+
+Definition ares_eqb (a b : ares) : bool :=
+  match a, b with
+  | AOk x, AOk y => bytes_eqb x y
+  | AErrParam, AErrParam | APanic, APanic => true
+  | _, _ => false
+  end.
+
+(** [CBuildMulti keys m out]: program.ProgramFromMultiPubKey(keys, m) - the node's own encoder of
+    the standard m-of-n script (for 16 keys it must end PUSH16 CHECKMULTISIG = 0x60 0xAE).
+    [CAddrMulti keys m htab r]: types.AddressFromMultiPubKeys(keys, m), the account the validator
+    caches; [htab] maps the STANDARD script (written by the harness's own encoder) to its hash. *)
 Inductive case :=
-| CSigners (t : vtx) (tb : tables) (validated : obs) (fallback : list bytes) (agree : bool).
+| CSigners (t : vtx) (tb : tables) (validated : obs) (fallback : list bytes) (agree : bool)
+| CBuildMulti (keys : list pubkey) (m : Z) (out : bres)
+| CAddrMulti (keys : list pubkey) (m : Z) (htab : list (bytes * bytes)) (r : ares).
 
 Definition case_ok (c : case) : bool :=
   match c with
@@ -26,6 +46,8 @@ Definition case_ok (c : case) : bool :=
     | VAccept a => Bool.eqb (addrs_same_set (get_signature_addresses (hlookup (t_h tb)) a t) fb) agree
     | _ => true
     end
+  | CBuildMulti keys m out => bres_eqb (program_from_multi_pubkey keys m) out
+  | CAddrMulti keys m htab r => ares_eqb (address_from_multi_pubkeys (hlookup htab) keys m) r
   end.
 
 Definition mismatches := mism case_ok.
